@@ -12,8 +12,8 @@ import (
 	vsql "github.com/nuetzliches/hookaido/internal/verifsql"
 )
 
-// verif:harness props=C05,C03 tprops=C02 tier=quick weight=120
-// verif:bounds SQLiteStore.Dequeue over the SQL model: N=2 rows (thorough 3) on routes r0/r1 in any state with arbitrary timestamps; route filter none/r0/r1; batch 1..2 (thorough 1..3); arbitrary positive lease TTL; the expired-lease sweep either due (last sweep at least the sweep interval ago) or throttled; one call
+// verif:harness props=C05,C03,C01 tprops=C02 tier=quick weight=120
+// verif:bounds SQLiteStore.Dequeue over the SQL model: N=2 rows (thorough 3) on routes r0/r1 in any state with arbitrary timestamps; route filter none/r0/r1; batch 1..2 (thorough 1..3); arbitrary positive lease TTL; the expired-lease sweep either due (last sweep at an arbitrary instant at least the sweep interval ago, or never) or throttled (a nanosecond ago); one call; the store object is fresh apart from the sweep stamp, i.e. this is also the first dequeue after a restart on a table left behind by a killed process (C01: leased-at-crash messages are offered again)
 func VerifC05SQLDequeue() {
 	n, maxBatch := 2, 2
 	if vrt.Thorough() {
@@ -24,7 +24,11 @@ func VerifC05SQLDequeue() {
 	vrt.Assume(now.UnixNano() > int64(time.Hour)) // (the store treats a zero last-sweep stamp as "long ago"; the clock is far from the epoch)
 	sweepDue := vrt.Bool("sweep-due")
 	if sweepDue {
-		w.s.lastLeaseSweepNanos = 0
+		// the last sweep ran at ANY instant at least one sweep interval ago (0 = never, e.g. right after a restart
+		// with leases of the previous process still in the table)
+		last := vrt.Int64("last-sweep")
+		vrt.Assume(last >= 0 && last <= now.UnixNano()-int64(defaultSQLiteLeaseSweepInterval))
+		w.s.lastLeaseSweepNanos = last
 	} else {
 		w.s.lastLeaseSweepNanos = now.UnixNano() - 1 // a sweep ran a nanosecond ago
 	}
